@@ -36,6 +36,9 @@ RULE = ("vec.* cases: (a) for every length 0..8 (rationals) one history containi
         "constant negative, alternating +-c, one non-zero entry first / last, negative maximum first / last; lengths 1, 2, 3, 8), norm-laws-structured "
         "(v = u, v = -u, v = 0; c = 0, 1, -1, 2, 1/2), complex-structured (entries on the axes, unit modulus, equal moduli), sort-ord-structured (sorted, "
         "reversed, constant, two values; lengths 0, 1, 2), f64-times-vector-structured, constructors-structured; "
+        "floats of a history are compared with the list model ITEM BY ITEM (veclib.result_scales / dump_scales): moved / copied / negated entries identical, element-wise products and "
+        "quotients within 1e-12 of the item itself, element-wise sums within 1e-12 of the larger operand, reductions within 1e-12 of the sum of the magnitudes of their terms; "
+        "a history the list model cannot follow (python OverflowError) is not judged and is counted (oracle_histories_not_judged); "
         "distinct = distinct executor line; non-trivial = non-empty vector or an operation that must panic")
 TRUSTED = ["Coq 8.16.1 kernel + vm_compute (primitive floats: bit-exact IEEE binary64)", "Flocq 4 (IEEE754.PrimFloat, BinarySingleNaN) and Coq's FloatAxioms for the two *_exact_float theorems", "Rust executor /verif/harness (kinds vec.*; Rat = i128 rationals)",
            "python driver: generators, plain-list reference model, mpmath norm reference, stream comparators",
@@ -47,7 +50,7 @@ ASSUMPTIONS = ["Rust semantics of Vec/usize as modelled (checked indexing, debug
                "the sampled cases are where model and code were compared; the theorems are about the model"]
 UNPROVED = ["norm_p over R: non-negativity, homogeneity and norm_p = norm_1 / norm_2 at p = 1 / 2 are proved (pow on non-negative arguments as the real power function); "
             "Minkowski (triangle inequality) and inf <= p <= 1 for general p are searched only for vectors (for MATRICES norm_p_triangle of Props/C03.v proves Minkowski for p >= 1)",
-            "round two: dot_backward_error, sum_slice_backward_error, norm_1_relative_error (gamma_n), norm_2_relative_error (gamma_{n+1}) in the standard model, dot/sum/norm_1 also at binary64 via Flocq; the norm LAWS 'up to rounding' over f64 remain searched (1e-12 slack on data of moderate magnitude; proved over R only) and FAIL for entries whose square overflows/underflows (recorded finding f64-square-range)",
+            "round two: dot_backward_error, sum_slice_backward_error, norm_1_relative_error (gamma_n), norm_2_relative_error (gamma_{n+1}) in the standard model, dot/sum/norm_1 also at binary64 via Flocq; the norm LAWS 'up to rounding' over f64 remain searched (every value within 1e-12 of the definition's, the laws between the returned values with 4e-12 slack; proved over R only) and FAIL for entries whose square overflows/underflows (recorded finding f64-square-range)",
             "powspace / norm_p over f64 depend on libm pow: tied by tolerance (table of the calls) and searched; their theorems are over R with pow as the real power function",
             "complex / rational vectors (package cnorm, coq/Proofs/VectorCx2.v, VectorCx2Q.v; pinned at the end of coq/Props/C15.v): for Vector<Complex<f64>>::norm_inf "
             "(vec_cmplx.rs) and the generic norm_1 (through Signed::abs = (|z|, 0)) the laws (maximum of the moduli, non-negativity, definiteness, homogeneity, triangle inequality, "
@@ -78,9 +81,11 @@ MANIFEST = dict(
           "sort_by with non-ascending comparators, Clone::clone_from, the public field, and the f64 / complex views after every pair of editing "
           "operation classes (families edit-pairs-*, history-x-*)."),
     note=("Norm laws are proved over R, not over f64 (rounding, overflow/underflow of the naive norm_2 are outside the theorems); "
-          "norm_p/powspace go through libm and are tied by tolerance; Minkowski for general p is searched only. The search draws entries of "
-          "magnitude 1e-3..1e3: for entries beyond ~1e154 (below ~1e-162) the unscaled norm_2/norm_p overflow (underflow) and the laws fail "
-          "on the real code, linspace fails when b-a overflows -- observed, written up in findings/C15-norm-range.md, not in the default search."),
+          "norm_p/powspace go through libm and are tied by tolerance; Minkowski for general p is searched only. The general families draw entries of "
+          "magnitude 1e-3..1e3; the family range-extreme, which runs in EVERY check, draws entries beyond ~1e154 (below ~1e-162) and spacings whose b-a overflows: "
+          "there the unscaled norm_2/norm_p overflow (underflow), the laws fail on the real code and linspace starts with NaN -- reported by the oracle on every run and "
+          "classified as the recorded finding f64-square-range (KNOWN_FINDINGS.txt, findings/C15-norm-range.md; key granted only when the sum of squares / powers the failing "
+          "call accumulates on its operand, evaluated in IEEE arithmetic, leaves the normal range, resp. b-a is not finite); every other failure of the same case is still reported."),
     technique="Coq proof over abstract ring/field and R + model/implementation differential execution (vm_compute vs Rust executor)",
     design="7 (C15)")
 
@@ -846,15 +851,28 @@ def finding_key(case, desc, items):
         return "f64-square-range" if not math.isfinite(m["b"] - m["a"]) else None
     return None
 
+NOT_JUDGED = {}        # family -> histories the list model could not follow (OverflowError / ZeroDivisionError): dropped from the search
+JUDGED = [0]
+
+def extra_coverage():
+    return {"oracle_histories_judged": JUDGED[0], "oracle_histories_not_judged": sum(NOT_JUDGED.values()),
+            "oracle_histories_not_judged_by_family": dict(NOT_JUDGED)}
+
 def oracle(case, items):
     m = case.meta; kind = m.get("kind")
     elt = case.elt
     if kind == "hist":
+        sc = []
         try:
-            exp = ref_vhist(elt, m["v0"], m["ops"])
+            exp = ref_vhist(elt, m["v0"], m["ops"], sc)
         except (OverflowError, ZeroDivisionError):
+            # the plain list model cannot follow this history (python float overflow in pow / a division python rejects):
+            # the history is NOT judged by the search; counted, per family, in the coverage (oracle_histories_not_judged)
+            NOT_JUDGED[case.family] = NOT_JUDGED.get(case.family, 0) + 1
             return None
-        d = streams_match(exp, items, 0.0 if elt == 'rat' else 1e-12)
+        JUDGED[0] += 1
+        # floats item by item against the item's own error scale (veclib.result_scales / dump_scales), not the largest of the run
+        d = streams_match(exp, items, 0.0 if elt == 'rat' else 1e-12, sc)
         if d: return "vector history disagrees with the plain list model: " + d
         return None
     if kind == "norms":
@@ -919,14 +937,17 @@ def oracle(case, items):
     if kind == "scale_l":
         s, v = m["s"], m["v"]
         exp = ref_items_v('f64', [s * x for x in v]) + ref_items_v('f64', [x * s for x in v])
-        d = streams_match(exp, items, 1e-15)
+        sc = ([None] + [abs(s * x) for x in v]) * 2                 # every product against its own magnitude
+        d = streams_match(exp, items, 1e-15, sc)
         return ("f64 * vector: " + d) if d else None
     if kind == "cx":
         v = m["v"]
         exp = ref_items_v('cplx', [z.conjugate() for z in v]) + ref_items_v('f64', [z.real for z in v]) + \
               ref_items_v('cplx', [_abs('cplx', z) for z in v])
         exp += [('f', f64_bits(max(_abs('cplx', z).real for z in v)))] if v else [('P', 'index')]
-        d = streams_match(exp, items, 1e-12)
+        mods = [abs(z) for z in v]               # conj / real: identical; |z| (and the maximum) against its own magnitude
+        sc = [None] + [0.0] * (2 * len(v)) + [None] + [0.0] * len(v) + [None] + [t for t in mods for _ in (0, 1)] + ([max(mods)] if v else [None])
+        d = streams_match(exp, items, 1e-12, sc)
         return ("complex vector conj/real/abs/norm_inf: " + d) if d else None
     if kind == "cnormlaws": return oracle_cnormlaws(m, items)
     if kind == "n1laws" and elt == 'rat': return oracle_n1laws_rat(m, items)
